@@ -1175,6 +1175,8 @@ func ssaCornerDocs() []string {
 
 // ---- observations ------------------------------------------------------------------------------------------------
 
+var ssaOptsCases [4]int // reader-model cases per callback combination (reported as ssa.readm.callbacks.<k>)
+
 func ssaReadModelObs(doc string, group string, human map[string]interface{}) (*obs, *astisub.Subtitles) {
 	if human == nil {
 		human = map[string]interface{}{}
@@ -1183,7 +1185,17 @@ func ssaReadModelObs(doc string, group string, human map[string]interface{}) (*o
 	o := &obs{Suite: "ssareadm", Group: group, Input: (&enc{}).str(doc).String(), Human: human}
 	var s *astisub.Subtitles
 	var err error
-	p := safely(func() { s, err = astisub.ReadFromSSA(strings.NewReader(doc)) })
+	// the same choice of callbacks as the driver (ocaml/drv_ssa.ml opts_of: by the length of the document in bytes), so that
+	// all four nil / non-nil combinations of OnUnknownSectionName / OnInvalidLine are run on BOTH sides
+	var opts astisub.SSAOptions
+	if len(doc)&1 == 0 {
+		opts.OnUnknownSectionName = func(string) {}
+	}
+	if len(doc)&2 == 0 {
+		opts.OnInvalidLine = func(string) {}
+	}
+	ssaOptsCases[len(doc)&3]++
+	p := safely(func() { s, err = astisub.ReadFromSSAWithOptions(strings.NewReader(doc), opts) })
 	switch {
 	case p != "":
 		o.Impl = "2"
@@ -1364,7 +1376,14 @@ func ssaWriterVariation(R *runner, r *rng, s *astisub.Subtitles) {
 
 func suiteSsaModel(R *runner, r *rng) {
 	R.rule("ssa model: the extracted Coq model against the implementation on the same inputs - ssareadm (rendered ground-truth documents with the extra lines of the ssa suite (unknown script-info keys, comments in every section and before the first header, second Format lines), documents written by the library, 1..3 line/byte mutations of rendered documents, hand-written corner documents; result class and projected value, class only outside the model's float domain), ssawritem (written bytes for ground-truth models, for variations exercising nil metadata/styles/attributes, keys differing from identifiers, duplicate identifiers, nil elements inside Items (model input: the list without them), lines without runs, items without lines, odd durations and integers, thousandth floats, and for every value returned by the reader), row level through the hooks: style rows and event rows against random Formats (permutations, subsets, aliases, unknown and duplicate names, every cell encoding), their string forms, colours, times, text splitting, item text, style references with '*', script info bytes, float spelling; non-trivial = accepted input with content")
-	defer func() { R.countN("ssa.writem.nil_item", ssaNilItemCases); ssaNilItemCases = 0 }()
+	defer func() {
+		R.countN("ssa.writem.nil_item", ssaNilItemCases)
+		ssaNilItemCases = 0
+		for k, n := range ssaOptsCases {
+			R.countN(fmt.Sprintf("ssa.readm.callbacks.unknown_%v.invalid_%v", k&1 == 0, k&2 == 0), n)
+			ssaOptsCases[k] = 0
+		}
+	}()
 	ssaCellsOn() // every cell spelling of the characterisation in the rendered documents; counted as ssa.cell.*
 	defer ssaCellsFlush(R)
 	N := 800
